@@ -48,6 +48,26 @@ def run(ctx):
         if i % 4 == 2:
             M = [list(r) for r in zip(*M)]
         big.append(mat_line(M))
+    # a signing / test call that returns successfully under a finite time limit owes the same answer: every clock read of the
+    # call is made the moment the limit expires (C18's injection, judge_tlimit) on multi-block matrices of unsigned and signed
+    # network blocks - a block that ran out of time must come back as an error, never as "is Camion-signed"
+    if hasattr(ctx, "families"):
+        from props import c18 as _c18
+        trng = ctx.rng.fork("camion-tlimit")
+        items = []
+        for i in range(24 if q else 400):
+            M = None
+            for _b in range(1 + trng.below(3)):
+                B = gen.network_matrix(trng, 3 + trng.below(5), 3 + trng.below(5))
+                if trng.below(2):
+                    B = [[abs(x) for x in r] for r in B]
+                M = B if M is None else gen.block_diag(M, B)
+            if i % 2:
+                M = gen.permute(trng, M)
+            if i % 3 == 2:
+                M = [list(r) for r in zip(*M)]
+            items.append(("%d %d %s" % (_c18.SUBS["camion"], 0, mat_line(M)), "camion", None))
+        _c18.evaluate(ctx, items)
     ctx.stream("camion", big, "camion: large network blocks (>= 100 x 100)", describe=lambda c: CODES.get(c, str(c)),
                nontrivial=lambda l, r: True)
     ctx.stream("camion", lines, "camion: exhaustive small, random, structured", describe=lambda c: CODES.get(c, str(c)),
